@@ -101,6 +101,12 @@ impl Run {
             let a = mk_addr(np, n, 20);
             std::sync::Arc::make_mut(&mut w.names).add(n, &a);
         }
+        // an upper-case spelling of a monitor's address (legal bech32, stored verbatim by the contract) and an address
+        // whose prefix merely STARTS with the protocol prefix
+        let up = w.names.ad("mon2").to_uppercase();
+        std::sync::Arc::make_mut(&mut w.names).add("MON2", &up);
+        let ov = mk_addr("osmovaloper", "u1", 20);
+        std::sync::Arc::make_mut(&mut w.names).add("ov:u1", &ov);
         std::sync::Arc::make_mut(&mut w.names).add("OTHERIBC", "ibc/0000000000000000000000000000000000000000000000000000000000000BAD");
         // the ibc-hooks intermediate accounts of the configured staker / collector are principals too (C08)
         for who in ["staker", "collector"] {
@@ -537,6 +543,12 @@ impl Run {
                     crate::migrate::downgrade_1_0_0(&mut self.w, 0);
                     self.w.tx_migrate(&json!({"v1_0_0_to_v1_1_0": {}}))
                 }
+            }
+            "migrate_from_0_4_20" => {
+                crate::migrate::to_0_4_20(&mut self.w);
+                let np = native_prefix(&self.setup);
+                self.w.tx_migrate(&json!({"v0_4_20_to_v1_0_0": {"native_account_address_prefix": np, "native_validator_address_prefix": format!("{np}valoper"),
+                                                               "native_token_denom": "utia", "protocol_account_address_prefix": "osmo"}}))
             }
             // ------------------------------------------------------------ treasury contract
             "t_instantiate" => {
